@@ -494,6 +494,8 @@ HUNT = {
             "a rerun from above a split re-executes on the route of the original execution, so its half-satisfied join on that route is satisfied instead of failing the workflow"),
     "F67": ("C07.hunt.unreachable_error_withdrawn_by_rerun", ["C07", "C17"],
             "the unreachable-join error does not outlive the rerun that satisfies the join"),
+    "F73": ("C15.hunt.malformed_delimiters_reported", ["C15"],
+            "inspection reports an expression whose delimiters are broken or unterminated, or that spans two lines, instead of accepting it as a literal string"),
     "F68": ("C18.hunt.rerun_record_is_what_ran", ["C18", "C17"],
             "the record a rerun appends says what the rerun execution ran with: a branch arriving before the rerun starts is reflected in the record, not only in the staged entry"),
 }
